@@ -321,6 +321,7 @@ def run_check(pid, tier, only=None, keep=False, parallel=None):
         results = []
         build_info = {}
         all_jobs = []
+        build_failed = []
         for b in builds_needed:
             hb = [h for h in sel if b in h["builds"]]
             mods = {}
@@ -365,14 +366,14 @@ def run_check(pid, tier, only=None, keep=False, parallel=None):
             build_info[b] = dict(rc=rc, seconds=round(bt, 1), features=bcfg["features"], no_default=bcfg["no_default"])
             log("[%s] build %s: rc=%d %.0fs, %d harnesses" % (pid, b, rc, bt, len(hb)))
             if rc != 0:
+                # The harnesses of this build cannot be compiled against the current tree (e.g. a change to a private
+                # struct they construct).  That is inconclusive for them - but the SMT / native parts of the check do
+                # not depend on the harness build and still decide what they can.
                 tail = open(os.path.join(ctx["logdir"], "build_%s.log" % b), errors="replace").read()[-4000:]
                 log(tail)
                 log("INCONCLUSIVE: the mirror crate did not compile for build", b)
-                if keep:
-                    log("scratch kept at", scratch)
-                write_evidence(pid, tier, seed, spec, [], build_info, gen_info, time.time() - t_start,
-                               inconclusive=["build failed: " + b], violations=0)
-                return 2
+                build_failed.append(b)
+                continue
             for h in hb:
                 mod = module_of(h["file"])
                 sub = (h["sub"] + "::") if h.get("sub") else ""
@@ -404,7 +405,7 @@ def run_check(pid, tier, only=None, keep=False, parallel=None):
         # ---------------- verdicts ----------------
         violations = []
         smt_violations = []
-        inconclusive = []
+        inconclusive = ["the harness crate did not compile for build %s: its harnesses were not run" % b for b in build_failed]
         known_lines = []
         for r in results:
             h = r["h"]
